@@ -591,11 +591,14 @@ class MinimizerBase(object):
             # (p - p_min) / scale so that the result does not depend on the units of the parameters.
             _par_vals = np.array(self.parameter_values, dtype=float)
             _scale = self._get_parameter_scale()
-            _hessian_scaled = nd.Hessian(lambda _u: self._func_wrapper_unpack_args(_par_vals + _u * _scale))(np.zeros_like(_par_vals))
-            self._hessian = _hessian_scaled / np.outer(_scale, _scale)
-            assert np.all(self._hessian == self._hessian.T)
-            # Write back parameter values to nexus parameter nodes:
-            self._func_wrapper_unpack_args(self.parameter_values)
+            try:
+                _hessian_scaled = nd.Hessian(lambda _u: self._func_wrapper_unpack_args(_par_vals + _u * _scale))(np.zeros_like(_par_vals))
+            finally:
+                # Write back parameter values to nexus parameter nodes (also if the calculation fails):
+                self._func_wrapper_unpack_args(self.parameter_values)
+            _hessian = _hessian_scaled / np.outer(_scale, _scale)
+            assert np.all(_hessian == _hessian.T)
+            self._hessian = _hessian
         return self._hessian.copy()
 
     @property
